@@ -566,7 +566,7 @@ def r01q(rep, F):
                 if nl <= levels[-1]:
                     return 'the level-up does not increase the number of sparse checks (%d -> %d)' % (levels[-1], nl), worst, arg, runs
                 levels.append(nl)
-            for r in range(0, 4):
+            for r in range(0, maxsub):
                 for sub in itertools.combinations(levels, r):
                     runs += 1
                     mm, gap = _history_ok(F, full, list(sub))
@@ -576,7 +576,10 @@ def r01q(rep, F):
                         worst, arg = gap, (full, list(sub))
         return msg, worst, arg, runs
 
-    fulls = list(range(1, 41))
+    # thorough tier: a wider domain (segment counts up to 96, sub-sequences of up to four sparse levels)
+    deep = getattr(rep, 'tier', 'quick') == 'thorough'
+    fulls = list(range(1, 97 if deep else 41))
+    maxsub = 5 if deep else 4
     total = 0
     # (1) default configuration
     msg, worst, arg, runs = decide(default, fulls)
@@ -645,3 +648,346 @@ def _default_from_header(F):
                 if n is not None and n.get('cv') is not None:
                     return int(n['cv'])
     raise AnalysisBroken('R01q: default value of initialNumSparseCollisionChecks_ not found')
+
+
+# ---------------------------------------------------------------------------------------------------------------------
+# R01t: multilevel (bundle-space) planners
+
+ML = 'ompl::multilevel::'
+ML_LINK = (ML + 'BundleSpaceGraph::addBundleEdge', ML + 'BundleSpaceGraph::addEdge', 'boost::add_edge')
+ML_TRUE = (ML + 'BundleSpaceGraph::checkMotion', ML + 'BundleSpacePropagator::steer', ML + 'PathSection::checkMotion',
+           ML + 'BundleSpaceGraph::connect')
+
+
+class QmpChain(fd.Interp):
+    """QMPImpl::expand after randomBounceMotion: configurations are abstract chain positions (-1 = the configuration the walk
+    started from, k = the configuration built from randomWorkStates_[k]); records the pairs handed to addEdge"""
+
+    def __init__(self, fn, same):
+        super().__init__(fn)
+        self.same = same
+        self.edges = []
+
+    def load(self, n, env):
+        if n['k'] == 'MemberExpr' and n.get('name') == 'index' and n['ch']:
+            return self.ev(n['ch'][0], env)          # a configuration's vertex stands for the configuration
+        return ('opaque', self.fn.fp(n['id']))
+
+    def store(self, lhs, value, env):
+        return
+
+    def ev(self, nid, env):
+        n = self.fn.nodes.get(nid)
+        if n is not None and n['k'] == 'CXXNewExpr':
+            # new Configuration(bundle, randomWorkStates_[k])
+            for x in self.fn.walk(nid):
+                if x['k'] == 'CXXOperatorCallExpr' and x.get('oop') == '[]' and 'randomWorkStates_' in self.fn.fp(x['ch'][-2]):
+                    return {'pos': self.ev(x['ch'][-1], env)}
+            return {'pos': None}
+        if n is not None and n['k'] in ('CXXConstructExpr', 'CXXTemporaryObjectExpr') and len(n['ch']) != 1:
+            return ('opaque', 'object')
+        return super().ev(nid, env)
+
+    def call(self, n, env):
+        c = n.get('callee') or ''
+        a = args(self.fn, n)
+        if c.endswith('BundleSpaceGraph::addEdge') or c == 'boost::add_edge':
+            x, y = self.ev(a[0], env), self.ev(a[1], env)
+            self.edges.append((x.get('pos') if isinstance(x, dict) else None, y.get('pos') if isinstance(y, dict) else None))
+            return ('opaque', 'edge')
+        if c.endswith('::sameComponent'):
+            return self.same
+        if n['k'] == 'CXXOperatorCallExpr' and n.get('oop') == '[]':
+            return ('opaque', 'elem')
+        for x in a:
+            try:
+                self.ev(x, env)
+            except AnalysisBroken:
+                pass
+        return ('opaque', c)
+
+
+def r01t(rep, F):
+    rep.rule('R01t', 'multilevel (bundle-space) planners: every graph edge (addBundleEdge / addEdge / boost::add_edge in the multilevel '
+                     'units) is created on CFG paths dominated by a positive motion verdict -- BundleSpaceGraph::checkMotion, the '
+                     'propagator\'s steer, PathSection::checkMotion, connect, SpaceInformation::checkMotion (3-argument form: validated '
+                     'prefix) -- locally or at every call site of the helper that contains it; the geometric propagator\'s steer returns '
+                     'the verdict of checkMotion(from, result); BundleSpaceGraph::checkMotion is the bundle\'s motion check of the two '
+                     'configurations\' states in order; QMPImpl::expand turns the walk validated by randomBounceMotion into edges between '
+                     'consecutive walk states only (interpreted over abstract chain positions, walk lengths 1..4, both sameComponent '
+                     'answers)')
+    n = 0
+    W = set(P.check_wrappers(F))
+    fns = [f for f in F.functions if f.body and '/multilevel/' in f.file and f.file.endswith('.cpp')]
+    pending = {}
+    for f in fns:
+        sites = {c['id']: c for c in f.walk() if c.get('callee') in ML_LINK}
+        if not sites:
+            continue
+        if f.name.endswith('::getPlannerData'):
+            continue
+        cl = _dominated(F, f, sites, ML_TRUE, W)
+        for sid, c in sorted(sites.items()):
+            g = cl.at.get(sid)
+            if g is None:
+                continue
+            role = '%s@%d' % (c['callee'].split('::')[-1], len([1 for o in rep.obl if o['rule'] == 'R01t' and o['function'] == f.name]))
+            if g:
+                n += 1
+                rep.add('R01t', f.name, role, True, f.where(sid), 'dominated by a positive motion verdict')
+            else:
+                pending.setdefault(f.name, []).append((role, f, sid, cl.paths_.get(sid)))
+    for hname, lst in sorted(pending.items()):
+        if hname == ML + 'QMPImpl::expand':
+            continue                                     # decided below by interpretation
+        callers = []
+        for f in fns:
+            calls = {c['id']: c for c in f.walk() if c.get('callee') == hname}
+            if not calls or f.name == hname:
+                continue
+            cl = _dominated(F, f, calls, ML_TRUE, W)
+            for cid, c in calls.items():
+                g = cl.at.get(cid)
+                if g is None:
+                    continue
+                callers.append((f, c, bool(g)))
+        for (role, hf, sid, path) in lst:
+            if not callers:
+                called = any(c.get('callee') == hname for f in F.functions for c in f.walk())
+                if not called:
+                    rep.undecided('R01t', hname, role, 'the function has no call site in the library (dead code): an edge it would add is never added')
+                    continue
+            n += 1
+            unguarded = [(f, c) for (f, c, ok) in callers if not ok and f.name not in pending]
+            via_helpers = [(f, c) for (f, c, ok) in callers if not ok and f.name in pending]
+            ok = bool(callers) and not unguarded
+            rep.add('R01t', hname, role, ok, hf.where(sid),
+                    'helper: %d call site(s) dominated by a positive motion verdict%s' % (
+                        len([1 for (_, _, o) in callers if o]),
+                        ', %d inside helpers that are discharged at their own call sites' % len(via_helpers) if via_helpers else '') if ok else
+                    'an edge is added without a positive motion verdict: neither locally nor at the call site %s' % (
+                        unguarded[0][0].where(unguarded[0][1]) if unguarded else '(none found)'), path)
+    # the verdict helpers themselves
+    for sf in [f for f in F.functions if f.name.endswith('::steer') and f.name.startswith(ML) and f.body]:
+        n += 1
+        rets = [r for r in sf.walk() if r['k'] == 'ReturnStmt' and r['ch']]
+        ok = bool(rets)
+        why = ''
+        for r in rets:
+            e = sf.strip(r['ch'][0])
+            src_ = e
+            if e is not None and e['k'] == 'DeclRefExpr' and e.get('dk') == 'Local':
+                k_ = '%s#%d' % (e['name'], e['did'])
+                defs = [d['init'] for x in sf.walk() if x['k'] == 'DeclStmt' for d in x.get('decls', []) if '%s#%d' % (d['name'], d['did']) == k_ and d.get('init')]
+                writes = [x for x in sf.walk() if x['k'] in ('BinaryOperator', 'CompoundAssignOperator') and x.get('op') in ('=', '|=', '&=') and key(sf, x['ch'][0]) == k_]
+                src_ = sf.strip(defs[0]) if len(defs) == 1 and not writes else None
+            if src_ is None or src_.get('callee') != ML + 'BundleSpaceGraph::checkMotion':
+                ok = False
+                why = 'steer returns %s, not the verdict of checkMotion' % sf.fp(r['ch'][0])[:80]
+            else:
+                a = args(sf, src_)
+                p0, p2 = '%s#%d' % (sf.params[0]['name'], sf.params[0]['did']), '%s#%d' % (sf.params[2]['name'], sf.params[2]['did'])
+                if [key(sf, x) for x in a[:2]] != [p0, p2]:
+                    ok = False
+                    why = 'steer checks the motion %s, not from -> result' % [sf.fp(x) for x in a[:2]]
+        rep.add('R01t', sf.name, 'steer-returns-check', ok, sf.loc, 'returns checkMotion(from, result)' if ok else why)
+    cm = _fn(F, ML + 'BundleSpaceGraph::checkMotion', file_contains='multilevel')
+    n += 1
+    rets = [r for r in cm.walk() if r['k'] == 'ReturnStmt' and r['ch']]
+    ok = len(rets) == 1
+    if ok:
+        e = cm.strip(rets[0]['ch'][0])
+        p0, p1 = '%s#%d' % (cm.params[0]['name'], cm.params[0]['did']), '%s#%d' % (cm.params[1]['name'], cm.params[1]['did'])
+        ok = e is not None and e.get('callee') in P.CHECK_CALLEES and [cm.fp(x) for x in args(cm, e)[:2]] == [p0 + '.state', p1 + '.state']
+    rep.add('R01t', cm.name, 'graph-check-is-bundle-check', ok, cm.loc, 'returns getBundle()->checkMotion(a->state, b->state)' if ok else
+            'BundleSpaceGraph::checkMotion does not return the bundle\'s motion check of (a->state, b->state)')
+    # QMP's walk expansion
+    ex = _fn(F, ML + 'QMPImpl::expand', file_contains='multilevel')
+    sdecl = qkey = None
+    for x in ex.walk():
+        if x['k'] == 'DeclStmt':
+            for d in x.get('decls', []):
+                ini = ex.strip(d['init']) if d.get('init') else None
+                if ini is not None and (ini.get('callee') or '').endswith('::randomBounceMotion'):
+                    sdecl = d
+                    st = ex.strip(args(ex, ini)[1])
+                    if st is not None and st['k'] == 'MemberExpr' and st.get('name') == 'state' and st['ch']:
+                        qkey = key(ex, st['ch'][0])
+    blk = None
+    if sdecl is not None:
+        skey = '%s#%d' % (sdecl['name'], sdecl['did'])
+        for x in ex.walk():
+            if x['k'] == 'IfStmt' and key(ex, (ex.strip(x['cond']) or {'ch': [0]})['ch'][0]) == skey:
+                blk = x
+    if sdecl is None or qkey is None or blk is None:
+        raise AnalysisBroken('R01t: the randomBounceMotion block of QMPImpl::expand was not recognised')
+    bad = None
+    runs = 0
+    for s in (1, 2, 3, 4):
+        for same in (True, False):
+            it = QmpChain(ex, same)
+            env = {skey: s, qkey: {'pos': -1}}
+            try:
+                it.ex(blk['id'], env)
+            except fd.Return:
+                pass
+            runs += 1
+            want = [(k - 1, k) for k in range(0, s)]
+            ok = sorted(it.edges) == sorted(want) or (same and sorted(it.edges) == sorted(want[:-1]))
+            if not ok and bad is None:
+                bad = 'for a walk of %d state(s) (sameComponent = %s) the edges join chain positions %s; the validated steps are %s' % (s, same, it.edges, want)
+    n += 1
+    rep.add('R01t', ex.name, 'walk-edges-consecutive', bad is None, ex.where(blk), bad or 'edges equal the validated steps on %d abstract runs' % runs)
+    rep.require_count('R01t', 'multilevel admission obligations', n, 10)
+
+
+# ---------------------------------------------------------------------------------------------------------------------
+# R01u: the goal classes the planners ask
+
+class GoalInterp(fd.Interp):
+    """goal predicates over abstract distances: si_->distance(st, g) answers from a table keyed by the goal state; states_ is a
+    list of abstract goal states; *distance is an out-cell"""
+
+    def __init__(self, fn, model):
+        super().__init__(fn)
+        self.m = model
+
+    def load(self, n, env):
+        if n['k'] == 'MemberExpr':
+            nm = n.get('name')
+            if nm in self.m:
+                return self.m[nm]
+            return ('this', nm)
+        raise AnalysisBroken('R01u: read of %s in %s' % (self.fn.fp(n['id']), self.fn.name))
+
+    def store(self, lhs, v, env):
+        if lhs is not None and lhs['k'] == 'UnaryOperator' and lhs.get('op') == '*':
+            cell = self.ev(lhs['ch'][0], env)
+            if isinstance(cell, dict):
+                cell['v'] = v
+                return
+        if lhs is not None and lhs['k'] == 'MemberExpr' and lhs.get('name') in self.m:
+            self.m[lhs['name']] = v
+            return
+        raise AnalysisBroken('R01u: store in %s' % self.fn.name)
+
+    def ev(self, nid, env):
+        n = self.fn.nodes.get(nid)
+        if n is not None and n['k'] == 'BinaryOperator' and n.get('op') in ('==', '!='):
+            a, b = self.ev(n['ch'][0], env), self.ev(n['ch'][1], env)
+            if isinstance(a, dict) or isinstance(b, dict) or a is None or b is None:
+                same = (a is b) or (a is None and b is None)
+                return same if n['op'] == '==' else not same
+        if n is not None and n['k'] == 'CXXForRangeStmt':
+            return None
+        return super().ev(nid, env)
+
+    def ex(self, nid, env):
+        n = self.fn.nodes.get(nid)
+        if n is not None and n['k'] == 'CXXForRangeStmt':
+            rng = None
+            for x in self.fn.walk(n.get('range') or n['ch'][0]):
+                if x['k'] == 'MemberExpr' and x.get('name') in self.m and isinstance(self.m[x['name']], list):
+                    rng = self.m[x['name']]
+            var = self.fn.nodes[n['var']]['decls'][0]
+            if rng is None:
+                raise AnalysisBroken('R01u: range of the loop in %s not recognised' % self.fn.name)
+            for item in list(rng):
+                env['%s#%d' % (var['name'], var['did'])] = item
+                try:
+                    self.ex(n['body'], env)
+                except fd.Break:
+                    break
+                except fd.Continue:
+                    continue
+            return
+        return super().ex(nid, env)
+
+    def call(self, n, env):
+        c = n.get('callee') or ''
+        a = args(self.fn, n) if n['k'] == 'CXXMemberCallExpr' else n['ch']
+        if n['k'] == 'CXXOperatorCallExpr' and n.get('oop') in ('->', '*'):
+            return self.ev(n['ch'][-1], env)
+        if c.endswith('::distance') and len(a) == 2:
+            x, y = self.ev(a[0], env), self.ev(a[1], env)
+            if x == ('st',) and isinstance(y, tuple) and y[0] == 'goal':
+                return self.m['dist'][y[1]]
+            raise AnalysisBroken('R01u: distance between %s and %s' % (x, y))
+        if c.endswith('::distanceGoal'):
+            x = self.ev(a[0], env)
+            if x != ('st',):
+                raise AnalysisBroken('R01u: distanceGoal of %s' % (x,))
+            return self.m['d2g']
+        if c.endswith('::isSatisfied') and len(a) == 2:
+            sub = GoalInterp(self.m['two'], self.m)
+            av = [self.ev(x, env) for x in a]
+            e2 = {'%s#%d' % (p['name'], p['did']): v for p, v in zip(self.m['two'].params, av)}
+            r, _ = sub.run(e2)
+            return r
+        if c in ('std::min', 'std::max', 'std::fmin', 'std::fmax', 'fmin', 'fmax'):
+            av = [self.ev(x, env) for x in a]
+            return min(av) if 'min' in c else max(av)
+        if c.endswith('numeric_limits::infinity'):
+            return float('inf')
+        if c.endswith('numeric_limits::max'):
+            return float('1e308')
+        raise AnalysisBroken('R01u: call %s in %s' % (c, self.fn.name))
+
+
+def r01u(rep, F):
+    rep.rule('R01u', 'the goal classes answer what the planners record (interpreted over abstract distances): GoalRegion::isSatisfied(st, '
+                     '&d) is true exactly when distanceGoal(st) is below the threshold (the boundary itself is not decided) and stores that '
+                     'same distance in *d whenever d is given, whatever the verdict; the one-argument form gives the same verdict; '
+                     'GoalState::distanceGoal is the distance from the tested state to the goal state; GoalStates::distanceGoal is the '
+                     'minimum over every stored goal state (all orders of three distinct distances, and the empty set)')
+    Bg = B
+    n = 0
+    two = [f for f in F.by_name.get(Bg + 'GoalRegion::isSatisfied', []) if f.body and len(f.params) == 2]
+    one = [f for f in F.by_name.get(Bg + 'GoalRegion::isSatisfied', []) if f.body and len(f.params) == 1]
+    if not two or not one:
+        raise AnalysisBroken('R01u: GoalRegion::isSatisfied vanished')
+    two, one = two[0], one[0]
+    bad = None
+    for d2g in (Fraction(0), Fraction(1, 2), Fraction(3, 2), Fraction(5)):
+        for given in (True, False):
+            cell = {'v': 'untouched'} if given else None
+            m = {'threshold_': Fraction(1), 'd2g': d2g, 'two': two}
+            it = GoalInterp(two, m)
+            env = {'%s#%d' % (two.params[0]['name'], two.params[0]['did']): ('st',), '%s#%d' % (two.params[1]['name'], two.params[1]['did']): cell}
+            r, _ = it.run(env)
+            if r != (d2g < 1) and bad is None:
+                bad = 'with distance %s and threshold 1 the verdict is %s' % (d2g, r)
+            if given and cell['v'] != d2g and bad is None:
+                bad = 'with distance %s the value stored in *distance is %s' % (d2g, cell['v'])
+        m = {'threshold_': Fraction(1), 'd2g': d2g, 'two': two}
+        it = GoalInterp(one, m)
+        r, _ = it.run({'%s#%d' % (one.params[0]['name'], one.params[0]['did']): ('st',)})
+        if r != (d2g < 1) and bad is None:
+            bad = 'the one-argument form answers %s for distance %s and threshold 1' % (r, d2g)
+    n += 1
+    rep.add('R01u', two.name, 'verdict-and-reported-distance', bad is None, two.loc, bad or 'verdict = distance < threshold and *distance = that distance on 12 abstract runs')
+    gs = _fn(F, Bg + 'GoalState::distanceGoal', file_contains='goals')
+    m = {'state_': ('goal', 0), 'dist': {0: Fraction(7)}, 'si_': ('si',)}
+    it = GoalInterp(gs, m)
+    try:
+        r, _ = it.run({'%s#%d' % (gs.params[0]['name'], gs.params[0]['did']): ('st',)})
+        ok, why = r == Fraction(7), 'returns %s' % (r,)
+    except AnalysisBroken as e:
+        ok, why = False, str(e)
+    n += 1
+    rep.add('R01u', gs.name, 'distance-to-the-goal-state', ok, gs.loc, 'si_->distance(st, state_)' if ok else
+            'GoalState::distanceGoal is not the distance from the tested state to the goal state: ' + why)
+    gss = _fn(F, Bg + 'GoalStates::distanceGoal', file_contains='goals')
+    bad = None
+    runs = 0
+    for perm in list(itertools.permutations([Fraction(1), Fraction(2), Fraction(3)])) + [(), (Fraction(4),)]:
+        m = {'states_': [('goal', i) for i in range(len(perm))], 'dist': dict(enumerate(perm)), 'si_': ('si',)}
+        it = GoalInterp(gss, m)
+        r, _ = it.run({'%s#%d' % (gss.params[0]['name'], gss.params[0]['did']): ('st',)})
+        runs += 1
+        want = min(perm) if perm else float('inf')
+        if r != want and bad is None:
+            bad = 'for goal distances %s the result is %s, not the minimum %s' % ([str(x) for x in perm], r, want)
+    n += 1
+    rep.add('R01u', gss.name, 'minimum-over-all-goal-states', bad is None, gss.loc, bad or 'minimum on %d abstract goal sets' % runs)
+    rep.require_count('R01u', 'goal class obligations', n, 3)
